@@ -99,6 +99,15 @@ class Source:
             self.module_src[mod] = src
             self._index(tree.body, mod, mod, None, src, path)
 
+    def add_file(self, path, mod):
+        """index an extra file (lemma programs: clients of the contracts, not repository code)"""
+        with open(path, encoding="utf-8") as f:
+            src = f.read()
+        tree = ast.parse(src)
+        self.modules[mod] = tree
+        self.module_src[mod] = src
+        self._index(tree.body, mod, mod, None, src, path)
+
     def _index(self, body, prefix, mod, cls, src, path):
         for node in body:
             if isinstance(node, (ast.FunctionDef, ast.AsyncFunctionDef)):
